@@ -162,6 +162,14 @@ func registerVxFS(e *Engine) {
 		}
 		return nil
 	})
+	e.reg(vxPath+".FSPublishGuard", func(ex *Exec, fr *frame, args []Value) Value {
+		st := ex.fs()
+		if st.guards == nil {
+			st.guards = map[string]string{}
+		}
+		st.guards[ex.fsPath(args[0])] = ex.fsPath(args[1])
+		return nil
+	})
 	// ghost state queries (ordering rules); natively these come from the syscall trace
 	e.reg(vxPath+".FSEvents", func(ex *Exec, fr *frame, args []Value) Value {
 		ex.ghostQueried = true // an answer the native twin cannot give: confirm by concrete re-execution
